@@ -120,7 +120,7 @@ Lemma step_consult c s o s' ev n h k tag rn cl d dcl : step c s o = (s', ev) ->
   exists i, o = Resp i (RRetryable k tag) /\ open_query s i h /\ n = nconsult s /\ rn = retries s /\ cl = clarg s k /\
             (d, dcl) = pol c n k tag rn cl.
 Proof.
-  intros H Hin. destruct o as [|i r|k0| |h0 p|k0]; cbn [step] in H.
+  intros H Hin. destruct o as [|i r|k0| |h0 p|k0|pp]; cbn [step] in H.
   - exfalso. apply (walk_no_consult _ _ _ _ _ _ H) in Hin. discriminate.
   - destruct (nth_error (attempts s) i) as [a|] eqn:N; [|inversion H; subst; destruct Hin].
     destruct (a_done a) eqn:D; [inversion H; subst; destruct Hin|].
@@ -137,6 +137,8 @@ Proof.
     apply (walk_no_consult _ _ _ _ _ _ W) in Hin. discriminate.
   - inversion H; subst. destruct Hin.
   - inversion H; subst. destruct Hin.
+  - exfalso. destruct (paging s); [|inversion H; subst; destruct Hin].
+    apply (walk_no_consult _ _ _ _ _ _ H) in Hin. discriminate.
 Qed.
 
 (* ------------------------------------------------------------------ counters and speculative-timer frame *)
@@ -231,7 +233,8 @@ Lemma set_result_counted c s h r s' ev : set_result c s h r = (s', ev) ->
   counted s s' ev /\ spec_left s' = spec_left s /\ (spec_armed s' = true -> spec_armed s = true).
 Proof.
   intros H. destruct r; cbn [set_result] in H;
-    try (inversion H; subst; first [apply sbo_counted, fail_with_same | apply sbo_counted, finish_with_same]).
+    try (inversion H; subst; first [apply sbo_counted, fail_with_same | apply sbo_counted, finish_with_same
+                                   | exact (sbo_counted (set_paging s _) _ (finish_with_same (set_paging s _) _))]).
   - destruct (pol c (nconsult s) k tag (retries s) (if request_error_kind k then msg_cl s else None)) as [d dcl].
     unfold handle_decision in H. inversion H; subst; clear H.
     destruct d; try (unfold counted, retry_count; cbn; repeat split; try lia; try discriminate; auto; fail).
@@ -256,25 +259,27 @@ Qed.
 
 (* Spec is the only step that can arm the speculative timer or consume the speculative plan *)
 Lemma step_counted c s o s' ev : step c s o = (s', ev) ->
-  counted s s' ev /\ (o <> Spec -> spec_left s' = spec_left s /\ (spec_armed s' = true -> spec_armed s = true)).
+  counted s s' ev /\ (o <> Spec -> is_next_page o = false ->
+                       spec_left s' = spec_left s /\ (spec_armed s' = true -> spec_armed s = true)).
 Proof.
-  intros H. destruct o as [|i r|k0| |h0 p|k0]; cbn [step] in H.
-  - pose proof (send_request_cframe _ _ _ _ H) as F. split; [|intros _; destruct F as (_ & _ & F3 & F4 & _); auto].
+  intros H. destruct o as [|i r|k0| |h0 p|k0|pp]; cbn [step] in H.
+  - pose proof (send_request_cframe _ _ _ _ H) as F. split; [|intros _ _; destruct F as (_ & _ & F3 & F4 & _); auto].
     apply counted_frame; [exact F|]. intros e He. eapply walk_no_consult; eauto.
-  - assert (Triv : counted s s [] /\ (Resp i r <> Spec -> spec_left s = spec_left s /\ (spec_armed s = true -> spec_armed s = true))).
+  - assert (Triv : counted s s [] /\ (Resp i r <> Spec -> is_next_page (Resp i r) = false ->
+                     spec_left s = spec_left s /\ (spec_armed s = true -> spec_armed s = true))).
     { unfold counted, retry_count. cbn. repeat split; auto; lia. }
     destruct (nth_error (attempts s) i) as [a|] eqn:N; [|inversion H; subst; exact Triv].
     destruct (a_done a) eqn:D; [inversion H; subst; exact Triv|].
     destruct (a_prep a) eqn:P.
     + inversion H; subst. unfold counted, retry_count. cbn. repeat split; auto; lia.
-    + apply set_result_counted in H. destruct H as (C & L & A). split; [exact C|intros _; auto].
+    + apply set_result_counted in H. destruct H as (C & L & A). split; [exact C|intros _ _; auto].
   - destruct (nth_error (queue s) k0) as [t|].
     + pose proof (run_task_cframe _ _ _ _ _ H) as F. split.
       * apply (counted_frame (set_queue s (remove_nth k0 (queue s))) s' ev F).
         intros e He. eapply run_task_no_consult; eauto.
-      * intros _. destruct F as (_ & _ & F3 & F4 & _). auto.
+      * intros _ _. destruct F as (_ & _ & F3 & F4 & _). auto.
     + inversion H; subst. unfold counted, retry_count. cbn. repeat split; auto; lia.
-  - split; [|intros N; congruence]. unfold spec_fire in H.
+  - split; [|intros N _; congruence]. unfold spec_fire in H.
     assert (Triv : forall s1, retries s1 = retries s -> nconsult s1 = nconsult s -> counted s s1 []).
     { intros s1 R C. unfold counted, retry_count. cbn. rewrite R, C. split; lia. }
     destruct (negb (spec_armed s)); [inversion H; subst; apply Triv; reflexivity|].
@@ -288,6 +293,12 @@ Proof.
     unfold start_timer. destruct (spec_armed s1); [exact C1|]. destruct (0 <? spec_left s1); exact C1.
   - inversion H; subst. unfold counted, retry_count. cbn. repeat split; auto; lia.
   - inversion H; subst. unfold counted, retry_count. cbn. repeat split; auto; lia.
+  - split; [|intros _ NP; discriminate].
+    destruct (paging s); [|inversion H; subst; unfold counted, retry_count; cbn; split; lia].
+    destruct (page_start_fields c s pp) as (_ & _ & _ & _ & _ & _ & _ & R & N & _).
+    pose proof (send_request_cframe _ _ _ _ H) as (F1 & F2 & _).
+    destruct (no_consult_counts ev) as [Rc C]; [intros e He; eapply walk_no_consult; eauto|].
+    unfold counted. rewrite Rc, C, F1, F2, R, N. cbn. split; lia.
 Qed.
 
 Lemma retry_count_app a b : retry_count (a ++ b) = retry_count a + retry_count b.
@@ -315,8 +326,14 @@ Lemma never_spec_step c s o s' ev : never_spec s -> step c s o = (s', ev) -> nev
 Proof.
   intros [A L] H. destruct (op_eq_spec o) as [->|N].
   - cbn [step] in H. unfold spec_fire in H. rewrite A in H. cbn in H. inversion H; subst. split; assumption.
-  - destruct (step_counted _ _ _ _ _ H) as [_ F]. destruct (F N) as [F1 F2]. split; [|congruence].
-    destruct (spec_armed s') eqn:E; [|reflexivity]. rewrite (F2 eq_refl) in A. discriminate.
+  - destruct (is_next_page o) eqn:NP.
+    + destruct o; try discriminate. cbn [step] in H. destruct (paging s); [|inversion H; subst; split; assumption].
+      assert (P : never_spec (page_start c s p)).
+      { unfold page_start, start_timer. cbn [spec_armed spec_left]. rewrite L. cbn. split; reflexivity. }
+      destruct P as [PA PL]. pose proof (send_request_cframe _ _ _ _ H) as (_ & _ & F3 & F4 & _). split; [|congruence].
+      destruct (spec_armed s') eqn:E; [|reflexivity]. rewrite (F4 eq_refl) in PA. discriminate.
+    + destruct (step_counted _ _ _ _ _ H) as [_ F]. destruct (F N NP) as [F1 F2]. split; [|congruence].
+      destruct (spec_armed s') eqn:E; [|reflexivity]. rewrite (F2 eq_refl) in A. discriminate.
 Qed.
 
 (* ------------------------------------------------------------------ running the retry task *)
